@@ -20,6 +20,18 @@ fn main() {
         mon::c13::first_touch(args[2].parse().expect("seed"), args[3].parse().expect("round"));
         return;
     }
+    if args[1] == "loci" {
+        // a5mon loci <seed> <quick|thorough>: the discontinuity scan on its own
+        a5mon::orc::silence_panics();
+        a5mon::loci::configure(args.get(2).and_then(|s| s.parse().ok()).unwrap_or(1), args.get(3).map(|s| s != "thorough").unwrap_or(true));
+        let t0 = std::time::Instant::now();
+        let l = a5mon::loci::discovered();
+        println!("{:?} in {:.1}s", a5mon::loci::counters(), t0.elapsed().as_secs_f64());
+        for p in l.points.iter().take(40) {
+            println!("{} face {} q {:?} r {:.6e} jump {:.3e}", p.map, p.face, p.q, (p.q[0] * p.q[0] + p.q[1] * p.q[1]).sqrt(), p.jump);
+        }
+        return;
+    }
     if args[1] == "replay" {
         let text = std::fs::read_to_string(&args[2]).expect("cannot read replay file");
         let v: Value = serde_json::from_str(&text).expect("replay file is not JSON");
@@ -88,7 +100,23 @@ fn main() {
         let _ = a5mon::calls::Call::GenericInverse { x: 0.3, y: 0.3 }.exec();
     }
     let t0 = Instant::now();
-    let run = (m.run)(&ctx);
+    // the geometric properties first look for discontinuities of the projection on the tree as it is (module `loci`) and
+    // place a share of their hostile points on whatever is found
+    let with_loci = ["C01", "C02", "C03", "C04", "C11", "C12", "C15", "C16"].contains(&m.id);
+    if with_loci {
+        a5mon::orc::silence_panics();
+        a5mon::loci::enable(seed, tier == Tier::Quick);
+    }
+    let mut run = (m.run)(&ctx);
+    if with_loci {
+        for (k, n) in a5mon::loci::counters() {
+            run.countn(&k, n);
+        }
+        run.note(format!(
+            "discontinuity scan: forward and inverse face projection along rays out of all 11 triangle corners (logarithmic steps from 1e-13) and random chords on all 12 faces; jumps above {:.0e} rad are located and visited by the point generators",
+            a5mon::loci::MIN_JUMP
+        ));
+    }
     let wall = t0.elapsed().as_secs_f64();
     let mut v = run.to_json();
     v["property_id"] = json!(m.id);
